@@ -15,6 +15,7 @@ require (
 	github.com/meshplus/bitxhub-model v1.28.1-0.20230411032618-24ca54eec606
 	github.com/meshplus/eth-kit v1.28.0
 	github.com/sirupsen/logrus v1.8.1
+	go.etcd.io/etcd v0.0.0-20191023171146-3cf2f69b5738
 )
 
 require (
